@@ -667,4 +667,51 @@ theorem prime_in_range_finding_multiple_of_8 :
 
 example : primeCandidate .wrapping 10 10 [3, 255] = ok 2047 := by decide
 
+/-! ## corpus facts -/
+
+/-- the Carmichael numbers and strong pseudoprimes of the harness corpus, each with a proper
+factor (the large primes of the corpus are taken from the literature and only tested) -/
+def corpusComposites : List (ℕ × ℕ) := [
+  (561, 3),
+  (1105, 5),
+  (1729, 7),
+  (2465, 5),
+  (2821, 7),
+  (6601, 7),
+  (8911, 7),
+  (41041, 7),
+  (825265, 5),
+  (321197185, 5),
+  (5394826801, 7),
+  (232250619601, 7),
+  (9746347772161, 7),
+  (35700127755121, 18121),
+  (37686301288201, 18451),
+  (57060521336809, 21187),
+  (386007699134627392741960852648423145645909879484785758609720275807602184721, 4006959063388780594065721),
+  (188920918756007600944123125562313043451461075597777194735767964389956961, 315773925627239341652311),
+  (2047, 23),
+  (1373653, 829),
+  (25326001, 2251),
+  (3215031751, 151),
+  (2152302898747, 6763),
+  (3474749660383, 1303),
+  (341550071728321, 10670053),
+  (3825123056546413051, 149491),
+  (318665857834031151167461, 399165290221),
+  (3317044064679887385961981, 1287836182261)]
+
+/-- **every pseudoprime of the corpus is composite**: the listed factor is proper and divides it
+(so `is_prime` must answer `false` on them; the pure-Rust back-end answers `true` on those
+without a factor below 17863 — finding `C17/rust_is_prime_accepts_carmichael`) -/
+theorem corpus_composites_are_composite :
+    ∀ x ∈ corpusComposites, 1 < x.2 ∧ x.2 < x.1 ∧ x.1 % x.2 = 0 := by
+  decide
+
+/-- the small primes of the corpus -/
+theorem corpus_small_primes :
+    ∀ p ∈ [2, 3, 5, 7, 11, 13, 17, 19, 23, 29, 31, 37, 41, 47, 59, 83, 97, 107, 167, 179, 227, 263,
+      1019, 2879], ∀ d ∈ List.range' 2 52, d * d ≤ p → p % d ≠ 0 := by
+  decide
+
 end CL.C17
